@@ -51,8 +51,9 @@ func c08factKnows(facts []c08fact, atom c08atom) bool {
 
 // c08nonEmptyKnown: a fact says the text v is not empty.
 func c08nonEmptyKnown(v ssa.Value, facts []c08fact) bool {
-	return c08factKnows(facts, func(c ssa.Value, truth bool, _ c08ctx) bool {
-		empty, ok := c08emptyTest(c, truth, func(x ssa.Value) bool { return c08sameText(x, v) })
+	return c08factKnows(facts, func(c ssa.Value, truth bool, ctx c08ctx) bool {
+		// (inside a predicate helper - known(p) - the subject is the helper's parameter: mapped back through ctx)
+		empty, ok := c08emptyTest(c, truth, func(x ssa.Value) bool { return c08sameText(x, v) || c08sameIn(x, ctx, v) })
 		return ok && !empty
 	})
 }
@@ -72,7 +73,7 @@ func c08boolKnown(v ssa.Value, facts []c08fact) (val bool, ok bool) {
 func c08nilKnown(v ssa.Value, facts []c08fact) (isNil bool, ok bool) {
 	for _, want := range []bool{true, false} {
 		w := want
-		atom := func(c ssa.Value, truth bool, _ c08ctx) bool {
+		atom := func(c ssa.Value, truth bool, ctx c08ctx) bool {
 			b, isB := c.(*ssa.BinOp)
 			if !isB || (b.Op != token.EQL && b.Op != token.NEQ) {
 				return false
@@ -86,7 +87,7 @@ func c08nilKnown(v ssa.Value, facts []c08fact) (isNil bool, ok bool) {
 			default:
 				return false
 			}
-			return other == v && ((b.Op == token.EQL) == truth) == w
+			return c08sameIn(other, ctx, v) && ((b.Op == token.EQL) == truth) == w
 		}
 		if c08factKnows(facts, atom) {
 			return w, true
